@@ -30,7 +30,8 @@ ASSUMPTIONS = [
     'text-seeded histories (hand-written text with char x[] / char x[n][] columns, appends of values longer than all present) '
     'are outside the domain of the theorems (doc_ok excludes undeclared lengths); they are compared with the model after every '
     'op (Model.CText) and decided by the direct checks object == fresh re-read == expected content',
-    'appended rows fit the table (same domain as C01 cells), appended keys are fresh identifiers different from every table name, '
+    'appended rows fit the table (same domain as C01 cells), appended keys are identifiers different from every table name '
+    '(they may re-state an existing keyword or be a case twin of one: dictionary semantics, Model.upd_pairs), '
     'appended values satisfy hdr_ok; write() is given an explicit list of comments; row data come as lists holding numpy '
     'scalars of the column type for floats (python ints / str otherwise) or as record arrays',
     'a table key in mixed letter case (neither all-lower nor all-upper) is silently dropped by append(): outside the statement; '
@@ -48,7 +49,34 @@ From PV Require Import Yanny.Bytes Yanny.Types Yanny.Parse Yanny.Render C03.Mode
 
 OUT_CODE = {'ok': 0, 'PydlutilsException': 1, 'warning': 2, 'ValueError': 3}
 COMMENTS = ['c', 'second write', 'copy of the file', 'x  y', 'FOO 1 2', 'k v']
-FRESH_KEYS = ['new_keyword', 'added', 'note', 'k9', 'Zeta', '_u', 'extra_1', 'status2', 'when', 'who']
+FRESH_KEYS = ['new_keyword', 'added', 'note', 'k9', 'Zeta', '_u', 'extra_1', 'status2', 'when', 'who', 'VERSION', 'SEEING', 'RUN2']
+
+
+def pair_keys(rng, h, n):
+    """keys for appended keyword pairs: fresh ones, and keys that re-state a keyword -- (i) one of the file's header (upper-case
+    ones included), (ii) one appended earlier in the history, (iii) a lower / upper / mixed-case twin of an existing key.
+    Never a key whose upper case is a table name (append() takes those for row data)."""
+    tn = [t['name'].upper() for t in h.doc['tables']]
+    present = [kv[0] for kv in (h.doc.get('hdr') or [])]
+    fresh = [x for x in FRESH_KEYS + G.HDR_KEYS if x not in present]
+    out = []
+    for _ in range(n):
+        t = rng.random()
+        if present and t < 0.25:
+            k = rng.choice(present)                                   # (i) / (ii) the same key again
+        elif present and t < 0.45:
+            p = rng.choice(present)                                   # (iii) a twin in another letter case
+            k = rng.choice([p.upper(), p.lower(), p.swapcase(), p.capitalize()])
+        elif fresh:
+            k = rng.choice(fresh)
+            if rng.random() < 0.3:
+                k = k.upper()
+        else:
+            continue
+        if k.upper() in tn or k == 'symbols' or k in out:
+            continue
+        out.append(k)
+    return out
 
 
 # ---------------------------------------------------------------------------------------------- generation
@@ -109,6 +137,7 @@ class Hist:
         self.cur = 'f0.par'
         self.nfile = 1
         self.clock = 0
+        self.last_lines = (0, 0)
         self.used_keys = set(k for k, _ in (doc.get('hdr') or []))
 
     def tick(self):
@@ -147,8 +176,15 @@ class Hist:
             if self.doc['hdr'] is None:
                 self.doc['hdr'] = []
             for k, v in pairs:
-                self.doc['hdr'].append([k, v])
+                # keywords are a dictionary: a re-stated key keeps its place and takes the new value
+                for kv in self.doc['hdr']:
+                    if kv[0] == k:
+                        kv[1] = v
+                        break
+                else:
+                    self.doc['hdr'].append([k, v])
                 self.used_keys.add(k)
+            self.last_lines = (len(pairs), sum(len(rr) for rr in rows.values()))
             for ti, rr in rows.items():
                 self.doc['tables'][ti]['rows'].extend(copy.deepcopy(rr))
             return 'ok'
@@ -175,16 +211,19 @@ def gen_op(rng, h, kinds=None):
         return {'op': 'append', 'entries': [e], 'clock': h.tick(), 'tag': k + ('_lower' if lower else '_upper')}
     if k == 'append_pairs':
         tn = [t['name'].upper() for t in doc['tables']]
-        keys = [x for x in FRESH_KEYS + G.HDR_KEYS if x not in h.used_keys and x.upper() not in tn]
-        ks = rng.sample(keys, min(len(keys), rng.randint(1, 2)))
+        ks = pair_keys(rng, h, rng.randint(1, 3))
         if not ks:
             return gen_op(rng, h, ['append_rows'])
         es = [{'k': x, 'text': str(rng.choice(G.HDR_VALUES + [42, 2.5]))} for x in ks]
+        have = [kv[0] for kv in (h.doc.get('hdr') or [])]
+        if any(x in have for x in ks):
+            k += '_restated'
+        elif any(x.upper() in [p.upper() for p in have] for x in ks):
+            k += '_case_twin'
         return {'op': 'append', 'entries': es, 'clock': h.tick(), 'tag': k}
     if k == 'append_mixed':
         tn = [t['name'].upper() for t in doc['tables']]
-        keys = [x for x in FRESH_KEYS + G.HDR_KEYS if x not in h.used_keys and x.upper() not in tn]
-        es = [{'k': x, 'text': str(rng.choice(G.HDR_VALUES))} for x in rng.sample(keys, min(len(keys), rng.randint(0, 2)))]
+        es = [{'k': x, 'text': str(rng.choice(G.HDR_VALUES))} for x in pair_keys(rng, h, rng.randint(0, 2))]
         for ti in rng.sample(range(len(doc['tables'])), rng.randint(1, min(2, len(doc['tables'])))):
             es.append({'k': h.table_key(ti, rng.random() < 0.5), 'table': ti, 'rows': gen_rows(rng, doc, ti, rng.randint(0, 2)),
                        'form': rng.choice(['lists', 'recarray'])})
@@ -476,8 +515,7 @@ def direct_checks(doc, raw, ops, res):
                 bad.append((k, 'append-changed-earlier-bytes', ''))
             else:
                 added = bytes.fromhex(nb[len(pb):]).decode('latin-1')
-                npairs = len(h.doc.get('hdr') or []) - len(before_doc.get('hdr') or [])
-                nrows = sum(len(t['rows']) for t in h.doc['tables']) - sum(len(t['rows']) for t in before_doc['tables'])
+                npairs, nrows = h.last_lines if want == 'ok' else (0, 0)      # every pair of the dictionary gets its line
                 marker = '# Appended by yanny.py at %s.\n' % op['clock']
                 if not added.startswith(marker):
                     bad.append((k, 'append-marker-line-missing', repr(added[:80])))
